@@ -221,6 +221,26 @@ class CreateCheck:
                                "P": P, "shape": sh, "alpha": alpha,
                                "first": g["first"], "seed": seed,
                                "listing": "native", "cli": True})
+        # large piece lengths with files of several MiB: pieces that straddle
+        # files with megabytes still missing (R: thresholds given in bytes;
+        # S: the same with 512 blocks per piece, thresholds given in blocks)
+        MiB = 1 << 20
+        for P in ([1 << 23] if quick else [1 << 22, 1 << 23, 1 << 24]):
+            alpha = [3 * MiB + 17, 6 * MiB + 5] if quick else \
+                [MiB + 1, 3 * MiB + 17, 6 * MiB + 5]
+            for sh in ("D3",) if quick else ("D2n", "D3"):
+                for g in e1.size_groups(sh, alpha):
+                    gs.append({"kind": "tree", "scale": "R", "B": REAL_B,
+                               "P": P, "shape": sh, "alpha": alpha,
+                               "first": g["first"], "seed": seed,
+                               "listing": "native"})
+        for sh in ("D2n", "D3"):
+            alpha = [300, 513, 700, 1025] if quick else \
+                [255, 300, 513, 700, 1025, 1537]
+            for g in e1.size_groups(sh, alpha):
+                gs.append({"kind": "tree", "scale": "S", "B": 2, "P": 1024,
+                           "shape": sh, "alpha": alpha, "first": g["first"],
+                           "seed": seed, "listing": "native", "long": True})
         # scale and count: many files in one directory, many directories, deep
         # nesting, long names; sizes = a pattern repeated along the file list,
         # once per starting offset
@@ -250,6 +270,9 @@ class CreateCheck:
                    "shape": "W1100", "seed": seed, "listing": "native",
                    "sizes_list": e1.cyclic_vectors(
                        1100, [0, 1, 7, 16384, 16385, 5], offsets=[0])})
+        gs.append({"kind": "vec", "scale": "S", "B": 2, "P": 4,
+                   "shape": "W1100", "seed": seed, "listing": "native",
+                   "sizes_list": [[5] + [0] * 1098 + [7]]})
         # environment faults while creating (E2, one fault per execution): a
         # payload file that cannot be opened, a read that fails, a progress
         # line that cannot be written
